@@ -2,6 +2,8 @@ import SspModel.Real
 import SspModel.Model.IFMR
 import SspModel.Lemmas.Table
 import SspModel.Generated.Formulas
+import SspModel.Generated.Tables
+import SspModel.Lemmas.PolyBound
 import Mathlib.Analysis.SpecialFunctions.Pow.Real
 /-!
 # C09 — initial-final mass relations are closed, ordered, physical at every metallicity
@@ -185,6 +187,52 @@ theorem brokenBH_default (m : ℝ) :
       nlinarith [mul_le_mul_of_nonneg_right this hpos.le]
   · rw [line_real, Real.rpow_one]; constructor <;> nlinarith
 
+/-! ## the WD relations: every packaged degree-10 polynomial is positive, below the progenitor mass and below the NS mass
+on `[0.7 Msun, its own m_max]` (kernel-checked Taylor-shift bounds over ℚ on 64 pieces per row, lifted to ℝ) -/
+
+/-- coefficients (lowest order first) of a row of `sevtables/wdifmr.dat`, as exact rationals -/
+def wdCoeffs (r : Int × Int × List Int) : List ℚ := r.2.2.reverse.map fun z => (z : ℚ) / Generated.wdScale
+def wdMax (r : Int × Int × List Int) : ℚ := (r.2.1 : ℚ) / Generated.wdScale
+
+set_option maxRecDepth 100000 in
+theorem wd_rows_checked : ∀ r ∈ Generated.wdifmr,
+    (7 / 10 : ℚ) < wdMax r ∧ PolyBound.rowOK (wdCoeffs r) (7 / 10) (wdMax r) (14 / 10) 64 = true := by
+  decide +kernel
+
+theorem evalP_append (p : List ℝ) (a x : ℝ) : PolyBound.evalP (p ++ [a]) x = PolyBound.evalP p x + a * x ^ p.length := by
+  induction p with
+  | nil => simp [PolyBound.evalP]
+  | cons b p ih => simp only [List.cons_append, PolyBound.evalP, ih, List.length_cons, pow_succ]; ring
+
+theorem foldl_horner (l : List ℝ) (acc x : ℝ) :
+    l.reverse.foldl (fun acc ck => ck + acc * x) acc = PolyBound.evalP l x + acc * x ^ l.length := by
+  induction l generalizing acc with
+  | nil => simp [PolyBound.evalP]
+  | cons b l ih =>
+    rw [List.reverse_cons, List.foldl_append, ih]
+    simp only [List.foldl_cons, List.foldl_nil, PolyBound.evalP, List.length_cons, pow_succ]; ring
+
+/-- the model's Horner evaluation (`np.polynomial.Polynomial`) is the polynomial -/
+theorem polyEval_eq_evalP (c : List ℝ) (x : ℝ) : polyEval c x = PolyBound.evalP c x := by
+  unfold polyEval
+  rcases List.eq_nil_or_concat c with rfl | ⟨init, top, rfl⟩
+  · simp [PolyBound.evalP, real_zero]
+  · simp only [List.concat_eq_append, List.reverse_append, List.reverse_cons, List.reverse_nil, List.nil_append, List.cons_append]
+    rw [foldl_horner, evalP_append]
+
+/-- **WD relation of every packaged metallicity**: positive, never above the progenitor, below the NS mass -/
+theorem wd_physical (r : Int × Int × List Int) (hr : r ∈ Generated.wdifmr) (m : ℝ) (h1 : (0.7 : ℝ) ≤ m) (h2 : m ≤ ((wdMax r : ℚ) : ℝ)) :
+    let c : List ℝ := (wdCoeffs r).map fun x : ℚ => (x : ℝ)
+    0 < polyEval c m ∧ polyEval c m ≤ m ∧ polyEval c m < 1.4 := by
+  obtain ⟨hlt, hok⟩ := wd_rows_checked r hr
+  have h1' : (((7 / 10 : ℚ)) : ℝ) ≤ m := by push_cast; linarith
+  have := PolyBound.rowOK_sound (wdCoeffs r) (7 / 10) (wdMax r) (14 / 10) 64 (by norm_num) hlt hok m h1' h2
+  simp only [polyEval_eq_evalP]
+  refine ⟨this.1, this.2.1, ?_⟩
+  have h3 := this.2.2
+  push_cast at h3
+  linarith
+
 structure Statement : Prop where
   classes : ∀ (f : IfmrFn ℝ) (m : ℝ), f.wdHi ≤ f.bhLo →
     (predictType f m = .WD ↔ m ≤ f.wdHi ∧ m < f.bhLo) ∧ (predictType f m = .NS ↔ f.wdHi < m ∧ m < f.bhLo) ∧
@@ -196,12 +244,18 @@ structure Statement : Prop where
       ((knotsOf (Tab.rows n p)).head hne).1 ≤ x → x ≤ ((knotsOf (Tab.rows n p)).getLast hne).1 →
       L ≤ linInterp (knotsOf (Tab.rows n p)) x ∧ 0 < linInterp (knotsOf (Tab.rows n p)) x ∧
       linInterp (knotsOf (Tab.rows n p)) x ≤ x
+  /-- every packaged WD relation on `[0.7, m_max]`: positive, not above the progenitor, below the NS mass (hence WD < NS in mass) -/
+  wd : ∀ r ∈ Generated.wdifmr, ∀ m : ℝ, (0.7 : ℝ) ≤ m → m ≤ ((wdMax r : ℚ) : ℝ) →
+    let c : List ℝ := (wdCoeffs r).map fun x : ℚ => (x : ℝ)
+    0 < polyEval c m ∧ polyEval c m ≤ m ∧ polyEval c m < 1.4
   linear : ∀ m : ℝ, 19 ≤ m → 0 < Generated.line m 1 0.4 0.7 ∧ Generated.line m 1 0.4 0.7 ≤ m
   powerlaw : ∀ m : ℝ, 19 ≤ m → m ≤ 150 → 0 < Generated.line m 3 3e-5 14 ∧ Generated.line m 3 3e-5 14 ≤ m
 
-/-- **C09 (partial)**: class logic, BH splines of every kernel-checked table, analytic BH prescriptions. Not proved in Lean:
-    the WD degree-10 polynomials' range (sampled densely by the sweep), FITPACK = linear interpolation (correspondence). -/
+/-- **C09 (partial)**: class logic, BH splines of every kernel-checked table, analytic BH prescriptions. the seven WD degree-10
+    polynomials (kernel-checked Taylor-shift bounds). Not proved in Lean: FITPACK = linear interpolation and numpy's Horner evaluation
+    in floats (correspondence); the WD upper bound declared at run time from the polynomial's numerical critical points (sweep). -/
 theorem C09_partial : Statement where
+  wd := wd_physical
   classes := predictType_spec
   consistent := predict_consistent
   spline := fun n p h hlen x L hne hL hx0 hx1 =>
